@@ -40,6 +40,11 @@ def menus(tier):
                          "regex": [("a",), ("[ab]+",), ("^a.$",), ("a{2}",), ("*",),
                                    ("a{99999999999999999999}",)]},
                 "values": [None, "", "a", "ab", "abc"]},
+        # a user subclass of StrSchema whose len() refuses lengths above 2
+        "capped_str": {"refs": {"len": [(1,), (3,), (1, E), (3, E), (E, 3), (1, 3)],
+                                "alphabet": [("ab",)], "contains": [("a",), ("",)],
+                                "regex": [("a",)]},
+                       "values": [None, "a", "abc"]},
         "list": {"refs": {"len": lst_len},
                  "values": [None, e1.Sch(INT), [], [I1], [I1, SA], [I1, E], [E, I1], [E, I1, E], [E]]},
     }
@@ -59,7 +64,11 @@ def enumerate_sets(tier):
 
 
 def outcome(kind, value, order, wpos=None):
-    s = getattr(schema, kind)
+    if kind == "capped_str":
+        from ..fwdtype import CappedStr
+        s = CappedStr()
+    else:
+        s = getattr(schema, kind)
     try:
         if value is not None:
             s = s(e1.realise(value))
